@@ -172,7 +172,38 @@ def build_case(base_viol: list[dict], linter: str, lang: str, main_lines: list[s
             return None
     d = {"form": form, "spelling": sp, "file": 0, "tlinter": linter, "tsub": t["sub"], "olinter": ol, "osub": os_,
          "at": at, "endAt": end_at, "before": before}
-    return lines, d
+    return lines, d, L
+
+
+def build_stacked(lines1: list[str], d1: dict, target_line: int, linter: str, sub: str, lang: str, stack: str):
+    """A second directive, naming another rule, on top of the file that already carries d1.
+
+    Coordinates are those of lines1 (the file with d1).  Returns (lines2, d2)."""
+    name, ol, os_ = rule_text("otherRule", linter, sub)
+    c = "#" if lang == "py" else "//"
+    lines = list(lines1)
+    # the target violation's line in lines1, and the first line of the (own-line directive + target) group
+    tl = target_line + sum(1 for b in d1["before"] if b <= target_line)
+    top = d1["at"] if d1["form"] == "nextLine" and d1["at"] == tl - 1 else tl
+
+    def indent_of(i):
+        x = lines[i - 1] if 0 < i <= len(lines) else ""
+        return x[:len(x) - len(x.lstrip())]
+
+    if stack == "blockOther":
+        ind = indent_of(top)
+        lines.insert(top - 1, ind + f"{c} thailint: ignore-start {name}")
+        lines.insert(tl + 1, ind + f"{c} thailint: ignore-end")
+        before, at, end_at, form = [top, tl + 1], top, tl + 2, "block"
+    elif stack == "lineOtherAbove":
+        lines.insert(top - 1, indent_of(top) + f"{c} thailint: ignore-next-line[{name}]")
+        before, at, end_at, form = [top], top, 0, "nextLine"
+    else:   # fileOther
+        lines.insert(0, f"{c} thailint: ignore-file[{name}]")
+        before, at, end_at, form = [1], 1, 0, "fileHeader"
+    d2 = {"form": form, "spelling": "otherRule", "file": 0, "tlinter": linter, "tsub": sub, "olinter": ol, "osub": os_,
+          "at": at, "endAt": end_at, "before": before}
+    return lines, d2
 
 
 def names(d: dict, v: dict) -> bool:
@@ -216,6 +247,36 @@ def expected(base: list[dict], d: dict) -> list[dict]:
     return out
 
 
+def in_scope(d: dict, nl: int) -> bool:
+    if d["form"] in ("repoPattern", "linterPattern"):
+        return True
+    if d["form"] == "sameLine":
+        return nl == d["at"]
+    if d["form"] == "nextLine":
+        return nl == d["at"] + 1
+    if d["form"] == "block":
+        return d["at"] < nl < d["endAt"]
+    return d["at"] <= 10
+
+
+def expected2(base: list[dict], d1: dict, d2: dict) -> list[dict]:
+    """Mirror of Ignore.tla Expected2 (diagnosis only)."""
+    def moved(x):
+        return x + sum(1 for b in d2["before"] if b <= x)
+    d1s = dict(d1, at=moved(d1["at"]), endAt=moved(d1["endAt"]) if d1["endAt"] else 0)
+    out = []
+    for v in base:
+        l1 = v["line"] + sum(1 for b in d1["before"] if b <= v["line"]) \
+            if v["file"] == d1["file"] and not v["pinned"] else v["line"]
+        l2 = l1 if v["pinned"] or v["file"] != d2["file"] else moved(l1)
+        if v["file"] == d1["file"] and names(d1, v) and in_scope(d1s, l2):
+            continue
+        if v["file"] == d2["file"] and names(d2, v) and in_scope(d2, l2):
+            continue
+        out.append(dict(v, line=l2))
+    return out
+
+
 def job(j: dict) -> dict:
     drive.preload()
     linter, section, lang, files = j["base"]
@@ -230,11 +291,33 @@ def job(j: dict) -> dict:
     base = lint_all(root0, names)
     main_lines = padded[main].rstrip("\n").split("\n")
     out = []
-    for ci, case in enumerate(j["cases"]):
+    single: dict = {}
+    ordered = sorted(enumerate(j["cases"]), key=lambda x: x[1].get("stack", "none") != "none")
+    for ci, case in ordered:
+        stack = case.get("stack", "none")
+        if stack != "none":
+            # second directive naming another rule on top of the single-directive file measured before
+            got = single.get((case["form"], case["spelling"], case["placement"]))
+            if got is None or section == "lazy-ignores":
+                continue
+            lines1, d1, tline, after1 = got
+            tsub = d1["tsub"]
+            lines, d = build_stacked(lines1, d1, tline, linter, tsub, lang, stack)
+            root = Path(j["root"]) / f"c{ci}"
+            root.mkdir()
+            drive.write_tree(root, padded)
+            (root / main).write_text("\n".join(lines) + "\n")
+            (root / ".thailint.yaml").write_text(CONFIG)
+            os.chdir(root)
+            import src.linter_config.ignore as ig
+            ig._CACHED_PARSER = None
+            after = lint_all(root, names)
+            out.append({"case": case, "d": d, "after": after, "d1": d1})
+            continue
         built = build_case(base, linter, lang, main_lines, case)
         if built is None:
             continue
-        lines, d = built
+        lines, d, tline = built
         root = Path(j["root"]) / f"c{ci}"
         root.mkdir()
         drive.write_tree(root, padded)
@@ -252,6 +335,7 @@ def job(j: dict) -> dict:
         ig._CACHED_PARSER = None      # a fresh process per project (singleton keyed by root anyway)
         after = lint_all(root, names)
         out.append({"case": case, "d": d, "after": after})
+        single[(case["form"], case["spelling"], case["placement"])] = (lines, d, tline, after)
     # the same project edited in place and linted again by the same process (one ignore parser, one set of
     # rule objects for the whole sequence): a directive's effect must follow the file's current text
     rootr = Path(j["root"]) / "reuse"
@@ -263,7 +347,8 @@ def job(j: dict) -> dict:
     ig2._CACHED_PARSER = None
     from src.api import Linter as _Linter
     held = _Linter(project_root=str(rootr))
-    inplace = [c for c in j["cases"] if c["form"] in ("sameLine", "nextLine", "block", "fileHeader")]
+    inplace = [c for c in j["cases"] if c["form"] in ("sameLine", "nextLine", "block", "fileHeader")
+               and c.get("stack", "none") == "none"]
 
     def pick(form, placement, spelling):
         return [c for c in inplace if (c["form"], c["placement"], c["spelling"]) == (form, placement, spelling)]
@@ -281,7 +366,7 @@ def job(j: dict) -> dict:
         built = build_case(base, linter, lang, main_lines, case)
         if built is None:
             continue
-        lines, d = built
+        lines, d, _tline = built
         (rootr / main).write_text("\n".join(lines) + "\n")
         after = lint_all(rootr, names, held if ci % 2 == 0 else None)
         out.append({"case": dict(case, reuse=ci + 1), "d": d, "after": after})
@@ -291,7 +376,8 @@ def job(j: dict) -> dict:
 def run(chk) -> None:
     quick = chk.tier == "quick"
     drive.preload()
-    chk.rule = ("directive cases (form x rule-name spelling x placement, 6 forms, 8 spellings) enumerated by TLC "
+    chk.rule = ("directive cases (form x rule-name spelling x placement x stacked second directive naming another rule; "
+                "6 forms, 12 spellings, 3 stackings) enumerated by TLC "
                 "from Ignore.tla, instantiated for every linter x language (21 bases) on projects whose "
                 "directive-free findings (all rules, via Linter.lint) are the base; Expected(base, d) computed by "
                 "TLC; non-trivial = the directive names a reported rule; distinct by (linter, language, case)")
@@ -321,22 +407,27 @@ def run(chk) -> None:
             raise MachineryError(f"C04: base project of {j['base'][0]}/{j['base'][2]} reports nothing for it")
         for run_ in r_.value["runs"]:
             base_of[id(run_)] = base
-            records.append({"base": base, "after": run_["after"], "d": run_["d"]})
+            records.append({"base": base, "after": run_["after"], "d": run_["d"], "stacked": "d1" in run_,
+                            "d1": run_.get("d1", run_["d"])})
             meta.append((j["base"], run_))
     verdicts = trace.validate(chk, "IgnoreTrace", "mc/IgnoreTrace.cfg", records)
     for (b, run_), (la, lb, at) in zip(meta, verdicts):
         case = {"linter": b[0], "lang": b[2], **run_["case"]}
         chk.count(case, nontrivial=run_["case"]["spelling"] != "otherRule")
-        exp = Counter(canon(v) for v in expected(base_of[id(run_)], run_["d"]))
+        exp = Counter(canon(v) for v in (expected2(base_of[id(run_)], run_["d1"], run_["d"]) if "d1" in run_
+                                         else expected(base_of[id(run_)], run_["d"])))
         aft = Counter(canon(v) for v in run_["after"])
         if (exp == aft) != (la == "ok"):
             raise MachineryError(f"C04: Python mirror and TLC disagree on {case}: TLC={la}")
         if la != "ok":
             for k_, kind in [(k_, "not-silenced") for k_ in (aft - exp)] + [(k_, "lost") for k_ in (exp - aft)]:
                 v = json.loads(k_)
-                chk.reject({"linter": b[0], "lang": b[2], "form": run_["case"]["form"],
-                            "spelling": run_["case"]["spelling"], "placement": run_["case"]["placement"],
-                            "clause": la, "culprit": v["linter"], "kind": kind},
-                           {"case": case, "d": run_["d"], "after": run_["after"], "v": v},
+                key = {"linter": b[0], "lang": b[2], "form": run_["case"]["form"],
+                       "spelling": run_["case"]["spelling"], "placement": run_["case"]["placement"],
+                       "clause": la, "culprit": v["linter"], "kind": kind}
+                if run_["case"].get("stack", "none") != "none":
+                    key["stack"] = run_["case"]["stack"]
+                chk.reject(key,
+                           {"case": case, "d": run_["d"], "d1": run_.get("d1"), "after": run_["after"], "v": v},
                            f"{la}: base {b[0]} ({b[2]}) {run_['case']['form']}/{run_['case']['spelling']}/"
-                           f"{run_['case']['placement']}: {v['linter']}.{v['sub']} line {v['line']} {kind}")
+                           f"{run_['case']['placement']}{'+' + run_['case']['stack'] if run_['case'].get('stack', 'none') != 'none' else ''}: {v['linter']}.{v['sub']} line {v['line']} {kind}")
